@@ -1,0 +1,93 @@
+//! Verification hooks. Compiled only with `--cfg futures_buffered_verif`; never part of a normal build.
+//!
+//! * [`sched_point`] is called in `waker_list.rs` immediately before every atomic operation / lock
+//!   acquisition of the shared waker block, so that a test scheduler that owns the threads can
+//!   pre-empt there. With nothing installed it is a no-op.
+//! * [`probe`] reports allocation and release of a waker block and every entry into the waker
+//!   vtable (before anything is dereferenced) to an installable observer.
+
+use core::sync::atomic::{AtomicUsize, Ordering};
+
+/// Where a scheduling point sits.
+#[derive(Clone, Copy, Debug, PartialEq, Eq)]
+pub enum Point {
+    /// about to take a slot's `wake_lock`
+    Lock,
+    /// waiting for a slot's `wake_lock` that is currently held by another thread
+    Spin,
+    /// about to increment the reference count
+    IncStrong,
+    /// about to decrement the reference count
+    DecStrong,
+    /// about to execute the acquire fence after the last decrement
+    Fence,
+    /// about to dequeue from the ready queue
+    Pop,
+}
+
+/// What a probe reports.
+#[derive(Clone, Copy, Debug, PartialEq, Eq)]
+pub enum Probe {
+    /// a waker block `[base, base+size)` for `cap` children has been allocated and initialised
+    BlockAlloc { base: usize, size: usize, cap: usize },
+    /// the waker block at `base` is about to be destroyed and deallocated
+    BlockRelease { base: usize },
+    /// a waker vtable function was entered with this slot pointer
+    Vtable { kind: VtableFn, slot: usize },
+}
+
+#[derive(Clone, Copy, Debug, PartialEq, Eq)]
+pub enum VtableFn {
+    Clone,
+    Wake,
+    WakeByRef,
+    Drop,
+}
+
+static SCHED: AtomicUsize = AtomicUsize::new(0);
+static PROBE: AtomicUsize = AtomicUsize::new(0);
+
+/// Install (or remove) the scheduling call-back. Process-wide.
+pub fn set_sched(f: Option<fn(Point)>) {
+    SCHED.store(f.map_or(0, |f| f as usize), Ordering::SeqCst);
+}
+
+/// Install (or remove) the probe call-back. Process-wide.
+pub fn set_probe(f: Option<fn(Probe)>) {
+    PROBE.store(f.map_or(0, |f| f as usize), Ordering::SeqCst);
+}
+
+#[inline]
+pub(crate) fn sched_point(p: Point) {
+    let f = SCHED.load(Ordering::Relaxed);
+    if f != 0 {
+        // SAFETY: only ever stored from a `fn(Point)` in `set_sched`
+        let f: fn(Point) = unsafe { core::mem::transmute::<usize, fn(Point)>(f) };
+        f(p);
+    }
+}
+
+#[inline]
+pub(crate) fn probe(p: Probe) {
+    let f = PROBE.load(Ordering::Relaxed);
+    if f != 0 {
+        // SAFETY: only ever stored from a `fn(Probe)` in `set_probe`
+        let f: fn(Probe) = unsafe { core::mem::transmute::<usize, fn(Probe)>(f) };
+        f(p);
+    }
+}
+
+/// Scheduling point in front of `lock()` on a slot's spin lock.
+///
+/// Under a cooperative test scheduler only one thread runs at a time, so a thread that was
+/// pre-empted while holding the lock would make a plain spin loop hang. This waits - yielding to the
+/// scheduler - until the lock is observed free and returns without a further scheduling point, so
+/// the `lock()` that follows succeeds at once. With real threads it is a harmless pre-spin.
+#[inline]
+pub(crate) fn before_lock<T>(m: &spin::mutex::SpinMutex<T>) {
+    sched_point(Point::Lock);
+    while m.is_locked() {
+        sched_point(Point::Spin);
+        core::hint::spin_loop();
+    }
+}
